@@ -8,6 +8,10 @@ const HOSTS = { Comp: 'Comp', Unbound: 'Unbound', member: 'ns.Comp' };
 // child shapes; `dyn` marks the ones whose treatment is decided at run time
 const SHAPES = {
   none:    { src: '' },
+  ws:      { src: '\n  ', empty: true },
+  cmt:     { src: '{/* c */}', empty: true },
+  emptyex: { src: '{}', empty: true },
+  wscmt:   { src: '\n  {/* c */}\n', empty: true },
   ident:   { src: '{sl}', dyn: 'ident' },
   uident:  { src: '{usl}', dyn: 'uident' },
   call:    { src: '{mkSlot()}', dyn: 'call' },
@@ -19,6 +23,10 @@ const SHAPES = {
   two:     { src: '{x}{y}' },
   textexpr:{ src: 'a{x}' },
   spread:  { src: '{...xs}' },
+  spreadId:{ src: '{...sl}', dyn: 'spreadIdent' },
+  spreadCl:{ src: '{...mkSlot()}', dyn: 'spreadCall' },
+  spreadOb:{ src: '{...{ a: 1 }}' },
+  spreadAr:{ src: '{...[x, y]}' },
   member:  { src: '{o.p}' },
   lit:     { src: '{"s"}' },
 };
@@ -97,7 +105,12 @@ function expectedChildren(c, env, created, lazy) {
   const vse = vslotEntries(c, env);
   const wrap = (list) => Object.assign({ default: () => list }, vse);
   const s = SHAPES[c.shape];
-  if (c.shape === 'none') return c.vslots === 'none' ? null : vse;
+  if (c.shape === 'none' || s.empty) return c.vslots === 'none' ? null : vse;
+  // a spread child is always part of the lazily evaluated default slot, whatever is being spread
+  if (s.dyn === 'spreadIdent') return Object.assign({ default: () => [...lazy] }, vse);
+  if (s.dyn === 'spreadCall') return Object.assign({ default: () => [...env.bound.mkSlot()] }, vse);
+  if (c.shape === 'spreadOb') return Object.assign({ default: () => [...{ a: 1 }] }, vse);
+  if (c.shape === 'spreadAr') return wrap([b.x, b.y]);
   if (s.dyn) {
     const isSlot = typeof created === 'function' || (Object.prototype.toString.call(created) === '[object Object]' && !(created && created.__v_isVNode));
     if (c.eos && isSlot) return created;
@@ -122,9 +135,9 @@ function abstain(c) {
   const s = SHAPES[c.shape];
   // v-slots next to an object-literal child / next to a passed-through runtime slots value: "beside default" – there may be none
   if (c.vslots !== 'none' && c.shape === 'objlit') return true;
-  if (c.vslots !== 'none' && s.dyn && c.eos && (c.kind === 'slotsObj' || c.kind === 'fn')) return true;
+  if (c.vslots !== 'none' && ['ident', 'uident', 'call'].includes(s.dyn) && c.eos && (c.kind === 'slotsObj' || c.kind === 'fn')) return true;
   // v-slots that itself defines `default` next to written children: precedence is not specified
-  if (c.vslots === 'objDefault' && c.shape !== 'none') return true;
+  if (c.vslots === 'objDefault' && c.shape !== 'none' && !s.empty) return true;
   return false;
 }
 
